@@ -200,9 +200,8 @@ def Color.parseNorm (v : Variant) (color : List Char) : Except StyleErr Color :=
               triplet := some ⟨16 * hexVal a + hexVal b, 16 * hexVal c + hexVal d, 16 * hexVal e + hexVal f⟩ }
       | _ => .error .colorParse   -- unreachable: the scanner returns exactly six characters
     | some (.color8 ds) =>
-      let number := decimalVal ds
-      if number > 255 then .error .colorParse
-      else .ok { name := color, type := numberType number, number := some number }
+      if decimalVal ds > 255 then .error .colorParse
+      else .ok { name := color, type := numberType (decimalVal ds), number := some (decimalVal ds) }
     | some (.rgb body) =>
       match splitComma body with
       | [red, green, blue] =>
